@@ -477,4 +477,32 @@ def opsForS (who : Bool) (ops : List (Bool × Op)) : List Op := (ops.filter (fun
 `stepsOf` is `ceil(delay/dt)`; `Bptk.Props.C11.stepsOf_least` proves it is the least `k` with `k·dt ≥ delay`. -/
 def stepsOf (dn dd tn td : Nat) : Nat := (dn * td + dd * tn - 1) / (dd * tn)
 
+/-! ### wave 9: counting the delay in "steps per round"
+
+`SimultaneousScheduler.run_step` knows `steps_per_round = round(1 / dt)`.  Counting a delay as
+`ceil(delay · steps_per_round)` agrees with `ceil(delay / dt)` only when `1/dt` is a whole number. -/
+
+/-- Python's `round(n / d)` for naturals (ties to even) -/
+def roundNat (n d : Nat) : Nat :=
+  let q := n / d
+  let r := n % d
+  if 2 * r < d then q else if d < 2 * r then q + 1 else if q % 2 = 0 then q else q + 1
+
+/-- `round(1 / dt)` for `dt = tn/td` -/
+def stepsPerRound (tn td : Nat) : Nat := roundNat td tn
+
+/-- `ceil(delay · steps_per_round)` for `delay = dn/dd` -/
+def stepsBySpr (dn dd tn td : Nat) : Nat := (dn * stepsPerRound tn td + dd - 1) / dd
+
+/-- one probed row: delay `dn/dd`, dt `tn/td`, and the number of steps the real scheduler kept the event back -/
+structure StepRow where
+  dn : Nat
+  dd : Nat
+  tn : Nat
+  td : Nat
+  probed : Nat
+deriving Repr
+
+def StepRow.ok (r : StepRow) : Bool := r.dd != 0 && r.tn != 0 && r.td != 0 && stepsOf r.dn r.dd r.tn r.td == r.probed
+
 end Bptk.C11
